@@ -913,6 +913,18 @@ func (x *Exec) applyContract(st *State, in ssa.Instruction, fc *FuncContract, f 
 			x.fresh[r.String()] = true
 		}
 	}
+	if endsInFalse(fc) {
+		// a loop that has to complete (e.g. the one that names every failed target) must not end the process in its body
+		if in != nil && x.fc != nil {
+			for h, ord := range x.loopOrdOf {
+				if st.inLoop[h] && loopBlocks(h)[in.Block()] {
+					if lc := x.fc.Loops[ord]; lc != nil && lc.Completes != "" {
+						x.oblige(st, "completes", fmt.Sprintf("loop%d.%s", ord, lc.Completes), False, "the loop body calls "+shortName+", which does not return")
+					}
+				}
+			}
+		}
+	}
 	witnesses := map[string]TV{}
 	for _, c := range fc.Ensures {
 		ctx := mk(st)
